@@ -71,3 +71,16 @@ def reset():
 def is_repo_module(dotted):
     p = os.path.join(REPO, *dotted.split("."))
     return os.path.exists(p + ".py") or os.path.exists(os.path.join(p, "__init__.py"))
+
+
+def is_generator(fnode):
+    """does the function body contain a yield (not counting nested functions / lambdas)?"""
+    stack = list(fnode.body)
+    while stack:
+        n = stack.pop()
+        if isinstance(n, (ast.Yield, ast.YieldFrom)):
+            return True
+        if isinstance(n, (ast.FunctionDef, ast.AsyncFunctionDef, ast.Lambda, ast.ClassDef)):
+            continue
+        stack.extend(ast.iter_child_nodes(n))
+    return False
